@@ -33,6 +33,7 @@ type Result struct {
 	Abort      bool   // the process must be recycled after this case (a runaway goroutine of the untouched copy)
 	SchedHash  uint64 // hash of the schedule trace(s)
 	StateHash  []uint64
+	Orders     []uint64 // cross-task site orderings observed (asm/multi engines)
 }
 
 func (r *Result) add(prop, sig string, detail map[string]any) {
@@ -165,6 +166,7 @@ type WorkerReport struct {
 	Hashes     []uint64         `json:"hashes"` // distinct non-trivial case hashes
 	Scheds     []uint64         `json:"scheds"` // distinct schedule hashes
 	States     []uint64         `json:"states"` // distinct state hashes
+	Orders     []uint64         `json:"orders"` // distinct cross-task site orderings
 	Samples    []map[string]any `json:"samples"`
 	WallS      float64          `json:"wall_s"`
 	Done       bool             `json:"done"`
